@@ -268,6 +268,7 @@ func flattenOverlay(repo, verifDir, tags string) (map[string][]byte, *flattenSta
 		return nil, st, nil // no baseline: no flattening
 	}
 	overlay := map[string][]byte{}
+	flattenExpanded = map[string]bool{}
 	if cur, err := scanInventory(repo, nil); err == nil {
 		renamedFuncs = detectRenames(base, cur)
 		for nk, ok := range renamedFuncs {
@@ -547,6 +548,7 @@ func (fl *flattener) rewriteFile(f *ast.File, fname string, src []byte) ([]byte,
 		text = "//line " + fname + ":" + fmt.Sprint(fset.PositionFor(stmt.Pos(), false).Line) + "\n" + text + "\n//line " + fname + ":" + fmt.Sprint(line)
 		edits = append(edits, edit{start: s, end: e, text: text})
 		pending = append(pending, site)
+		flattenExpanded[funcInventoryKey(fl.pkRel, recvTypeName(fd), fd.Name.Name)] = true
 	}
 	visitBlock = func(list []ast.Stmt) {
 		for _, s := range list {
@@ -592,6 +594,7 @@ func (fl *flattener) rewriteFile(f *ast.File, fname string, src []byte) ([]byte,
 		edits = append(edits, edit{start: s, end: e, text: text})
 		rawEdit[len(edits)-1] = true
 		pending = append(pending, site)
+		flattenExpanded[funcInventoryKey(fl.pkRel, recvTypeName(fd), fd.Name.Name)] = true
 		return false
 	})
 	// a new helper no call site refers to any more (all were expanded) is dropped, so that rules about "who writes /
@@ -602,7 +605,12 @@ func (fl *flattener) rewriteFile(f *ast.File, fname string, src []byte) ([]byte,
 			continue
 		}
 		fn, _ := fl.pkg.TypesInfo.Defs[fd.Name].(*types.Func)
-		if fn == nil || !fl.isNewHelper(fn) || fl.useCount(fn) > 0 {
+		if !flattenDropDead || fn == nil || !fl.isNewHelper(fn) || fl.useCount(fn) > 0 {
+			continue
+		}
+		// a method may be reached through an interface without any static reference: only a method whose calls we
+		// expanded ourselves is known to be dead
+		if fd.Recv != nil && !flattenExpanded[funcInventoryKey(fl.pkRel, recvTypeName(fd), fd.Name.Name)] {
 			continue
 		}
 		s, e := off(fd.Pos()), off(fd.End())
@@ -1198,6 +1206,12 @@ func nodeStrRange(fl *flattener, body *ast.BlockStmt) string {
 	}
 	return string(content[s:e])
 }
+
+// flattenDropDead: remove helpers that no call refers to any more (switched off by the loader's second attempt).
+var flattenDropDead = true
+
+// flattenExpanded: inventory keys of helpers of which at least one call was expanded.
+var flattenExpanded = map[string]bool{}
 
 // flattenFileContent lets later rounds read rewritten files.
 var flattenFileContent = map[string][]byte{}
